@@ -31,14 +31,14 @@ worker() {
         [ -f "$d/patch.diff" ] || continue
         name=$(echo "$d" | sed "s|$ROOT/seeded/||")
         cd "$D/repo" || exit 2
-        git checkout -q -- . 
+        git checkout -q -- . ; git clean -fdq
         if ! git apply "$d/patch.diff" 2>/dev/null; then
             printf "%s\t \t \ttry_mutant: patch does not apply\n" "$name" >> "$S/out.$k"; continue
         fi
         T=$(CARGO_TARGET_DIR="$D/repo/target" cargo test --offline --lib 2>&1 | grep -E "^test result" | head -1)
         case "$T" in
             *"73 passed; 0 failed"*) ;;
-            *) git checkout -q -- .; printf "%s\t \t \ttry_mutant: the change does not pass the 73 unit tests\n" "$name" >> "$S/out.$k"; continue;;
+            *) git checkout -q -- .; git clean -fdq; printf "%s\t \t \ttry_mutant: the change does not pass the 73 unit tests\n" "$name" >> "$S/out.$k"; continue;;
         esac
         caught=""; err=""
         for id in $IDS; do
@@ -46,7 +46,7 @@ worker() {
             [ $rc -eq 1 ] && caught="$caught $id"
             [ $rc -ge 2 ] && err="$err $id"
         done
-        git checkout -q -- .
+        git checkout -q -- .; git clean -fdq
         if [ -f "$d/expected_alarms" ]; then
             # a change that keeps the other properties but is known to break the listed ones
             for x in $(cat "$d/expected_alarms"); do caught=$(echo "$caught" | sed "s/ $x//"); done
